@@ -11,6 +11,7 @@ import (
 	"time"
 
 	api "k8s.io/api/core/v1"
+	discoveryv1 "k8s.io/api/discovery/v1"
 	networking "k8s.io/api/networking/v1"
 	metav1 "k8s.io/apimachinery/pkg/apis/meta/v1"
 	"k8s.io/apimachinery/pkg/types"
@@ -451,4 +452,65 @@ func Empty(kind string) client.Object {
 	k := o.ToK8s()
 	k.SetName("")
 	return k
+}
+
+
+// EndpointSlices renders an Endpoints object of the world the way the EndpointSlice controller of a cluster publishes
+// it: one slice per subset, split in two (even / odd positions) when the subset has two addresses or more, all labelled
+// with kubernetes.io/service-name. Ready of a ready address is true or left unset (nil means ready, by the API's rule).
+func EndpointSlices(o *Obj) []*discoveryv1.EndpointSlice {
+	if o == nil || o.Kind != KEndpoints {
+		return nil
+	}
+	var out []*discoveryv1.EndpointSlice
+	tcp := api.ProtocolTCP
+	yes, no := true, false
+	for i, s := range o.Subsets {
+		type item struct {
+			a     Addr
+			ready bool
+		}
+		var all []item
+		for _, a := range s.Ready {
+			all = append(all, item{a, true})
+		}
+		for _, a := range s.NotReady {
+			all = append(all, item{a, false})
+		}
+		parts := [][]item{all}
+		if len(all) >= 2 {
+			parts = [][]item{nil, nil}
+			for j, it := range all {
+				parts[j%2] = append(parts[j%2], it)
+			}
+		}
+		for pi, part := range parts {
+			m := meta(o)
+			m.Name = fmt.Sprintf("%s-%d%c", o.Name, i, 'a'+pi)
+			if m.Labels == nil {
+				m.Labels = map[string]string{}
+			}
+			m.Labels[discoveryv1.LabelServiceName] = o.Name
+			sl := &discoveryv1.EndpointSlice{ObjectMeta: m, AddressType: discoveryv1.AddressTypeIPv4}
+			for _, p := range s.Ports {
+				name, port := p.Name, int32(p.Port)
+				sl.Ports = append(sl.Ports, discoveryv1.EndpointPort{Name: &name, Port: &port, Protocol: &tcp})
+			}
+			for j, it := range part {
+				e := discoveryv1.Endpoint{Addresses: []string{it.a.IP}}
+				switch {
+				case !it.ready:
+					e.Conditions.Ready = &no
+				case j%2 == 0:
+					e.Conditions.Ready = &yes
+				}
+				if it.a.Pod != "" {
+					e.TargetRef = &api.ObjectReference{Kind: "Pod", Namespace: o.NS, Name: it.a.Pod}
+				}
+				sl.Endpoints = append(sl.Endpoints, e)
+			}
+			out = append(out, sl)
+		}
+	}
+	return out
 }
